@@ -84,6 +84,7 @@ def main(chk):
                 chk.sample({'kind': rec['kind'], 'expression': rec['e'], 'expected_train_value': json.dumps(rec['train'])[:400] + ' ...'})
     chk.validated(sum(ok.values()))
     chk.extra['expressions'] = {'folds': f'2..{maxk}', 'generated': len(recs), 'conforming': ok}
+    splitter_actor(chk, rnd, tmp)
     # binding self-test (independent of the code under test): an internally consistent but leaky wiring - train and test
     # parts exchanged everywhere - is rejected by the comparison
     rec = next(r for r in recs if r['kind'] == 'eval')
@@ -94,9 +95,66 @@ def main(chk):
     chk.assume('metric and reducer are uninterpreted callables wrapped by the real evaluation.Function')
 
 
+class FakeCV:
+    """Cross-validator handing out the fold indices TLC chose (any index sequences)."""
+
+    def __init__(self, pairs):
+        self.pairs = pairs
+
+    def split(self, features, labels=None, groups=None):
+        import numpy
+        for pair in self.pairs:
+            yield numpy.array(pair['train'], dtype=int), numpy.array(pair['test'], dtype=int)
+
+    def get_n_splits(self, features=None, labels=None, groups=None):
+        return len(self.pairs)
+
+
+def splitter_actor(chk, rnd, tmp):
+    """Splitter.tla replayed on the real payload.PandasCVFolds (the default splitter of CrossVal, HoldOut, FullStack)."""
+    import pandas
+    from forml.pipeline import payload
+    nrows, k = (3, 2) if chk.quick else (4, 2)
+    cfg_path = os.path.join(tmp, 'sp.cfg')
+    with open(cfg_path, 'w') as fh:
+        fh.write(f'SPECIFICATION Spec\nCONSTANTS NRows = {nrows}\n K = {k}\nINVARIANT Synced\nINVARIANT Export\nCHECK_DEADLOCK FALSE\n')
+    res = chk.tlc('Splitter', cfg_path, require=['AddFold', 'Train'], workers=8, timeout=3000)
+    recs = res.json_prints()
+    if not recs:
+        raise tlc.MachineryError('Splitter.tla exported nothing')
+    rnd.shuffle(recs)
+    recs = recs[:(3000 if chk.quick else 40000)]
+    features = pandas.DataFrame({'f': [100 + r for r in range(nrows)], 'g': [0] * nrows})
+    labels = pandas.Series([200 + r for r in range(nrows)], name='y')
+    ok = 0
+    for rec in recs:
+        try:
+            actor = payload.PandasCVFolds.builder(crossvalidator=FakeCV(rec['cv']))()
+            actor.train(features, labels)
+            fparts = [list(part['f']) for part in actor.apply(features)]
+            lparts = [list(part.iloc[:, 0]) if hasattr(part, 'columns') else list(part) for part in actor.apply(labels)]
+            problem = None
+            if fparts != rec['features']:
+                problem = f'feature parts {fparts} instead of {rec["features"]}'
+            elif lparts != rec['labels']:
+                problem = f'label parts {lparts} instead of {rec["labels"]}'
+        except Exception as exc:  # pylint: disable=broad-except
+            problem = f'raised {type(exc).__name__}: {exc}'
+        if problem:
+            chk.fail(f'C12 PandasCVFolds with fold indices {rec["cv"]}: {problem} (port 2i must hold exactly the train part, 2i+1 the '
+                     'test part of fold i, for features and labels alike)', {'kind': 'splitter', 'cv': rec['cv'], 'nrows': nrows})
+        else:
+            ok += 1
+    chk.validated(ok)
+    chk.extra['splitter_actor'] = {'rows': nrows, 'folds': k, 'cross_validators_replayed': len(recs), 'conforming': ok}
+
+
 def replay(chk, path):
     with open(path) as fh:
         rep = json.load(fh)['replay']
+    if rep.get('kind') == 'splitter':
+        print(json.dumps(rep))
+        return 1
     train, apply, _ = observe({'e': rep['e'], 'kind': rep['kind']}, os.getcwd())
     print(json.dumps({'train': train, 'apply': apply}, indent=1))
     return 1
